@@ -378,7 +378,7 @@ def run_shard(spec, seed, tier, active):
 
     if spec["mode"] == "fuzz":
         from .. import fuzz
-        return fuzz.run_campaign("c12", spec, seed, acc)
+        return fuzz.run_campaign("c12", spec, seed, acc, tier=tier)
 
     n = 250 if tier == "quick" else 2500
     one = make_one(spec, tier, acc)
